@@ -7,12 +7,19 @@ DECS = [("cobs", "mpt_decode_cobs", "REF_COBS"), ("cobs_r", "mpt_decode_cobs_r",
 
 
 def queries(tier):
-    n = 5 if tier == "quick" else 8
     qs = []
+    cfg = [(5, 0), (3, 1)] if tier == "quick" else [(8, 0), (6, 1)]
     for (nm, dec, var) in DECS:
-        qs.append(Q("arbitrary_" + nm, "C03/arbitrary.c", units=CODEC,
-                    harness_defines={"DEC": dec, "VARIANT": var, "N": n}, unwind_default=n + 3,
-                    unwind={"ref_decode": 2 * n + 3, "judge": 2 * n + 3},
-                    bounds="input 0..%d arbitrary bytes, delivered in two steps at every cut; resume after 'need more'" % n,
-                    outside="inputs longer than %d bytes; more than two delivery steps; block codes above the input length are reachable only as incomplete frames" % n))
+        for (n, two) in cfg:
+            qs.append(Q("arbitrary_%s_%s" % (nm, "2step" if two else "1call"), "C03/arbitrary.c", units=CODEC,
+                        harness_defines={"DEC": dec, "VARIANT": var, "N": n, "TWO_STEP": two}, unwind_default=n + 2,
+                        unwind={"ref_decode": 2 * n + 3, "judge": 2 * n + 3, "harness": n + 5, "intact": n + 5, "mpt_message_read": 3},
+                        bounds="input 0..%d arbitrary bytes, %s" % (n, "delivered in two steps at every cut, resumed after 'need more'" if two else "one call"),
+                        outside="inputs longer than %d bytes; more than two delivery steps" % n))
+    for (nm, dec, var) in DECS:
+        qs.append(Q("decstep_" + nm, "C03/decstep.c", units=CODEC,
+                    harness_defines={"DEC": dec, "VARIANT": var}, unwind_default=6,
+                    unwind={"harness": 16, "mpt_message_read": 3}, 
+                    bounds="one decoder call from any resume state: block code 1..255, position 0..254; decoded window <= 3 bytes, slack 1..3, <= 3 new arbitrary input bytes",
+                    outside="more than 3 new bytes per call in this shape; decoded windows above 3 bytes (no memory is proportional to code/position)"))
     return qs
